@@ -328,7 +328,7 @@ def main(argv=None):
                 groups.setdefault(tuple(k.get('extra', ())), []).append(k['harness'])
             for extra, hs in groups.items():
                 res, kani_cmd, raw = kani_run.run_harnesses(scratch, hs, playback=True, extra=extra,
-                                                         timeout=P.get('kani_timeout', 3000))
+                                                         timeout=P.get('kani_timeout', 3000) * (5 if tier == 'thorough' else 1))
                 kani_results.update(res)
             for k in kani_specs:
                 r = kani_results[k['harness']]
@@ -363,7 +363,7 @@ def main(argv=None):
                     undecided.append('kani scratch: %s' % e)
             if scratch:
                 res, kcmd, raw = kani_run.run_harnesses(scratch, [k['harness'] for k in fb], playback=True,
-                                                     timeout=P.get('kani_timeout', 3000))
+                                                     timeout=P.get('kani_timeout', 3000) * (5 if tier == 'thorough' else 1))
                 for k in fb:
                     r = res[k['harness']]
                     log('[kani ] fallback  %-40s %-9s %.1fs' % (k['harness'], r.status, r.time_s))
